@@ -1224,6 +1224,7 @@ fn families(ctx: &Ctx, sink: Sink) {
             };
             family_content(thorough, &o, sink);
             sink(scenario_item("foreach-sources", ""));
+            sink(scenario_item("null-content", ""));
         }
         _ => panic!("e1: unknown property {}", ctx.prop),
     }
@@ -1542,6 +1543,87 @@ fn scenario_event_fields(ctx: &Ctx, out: &mut WorkerOut, index: usize, dm: &str)
 /// C09: a <data> element that carries the id of a system variable (early bound at the root, late bound in a state)
 /// with a literal, a bare reference to another system variable / event field, or an ordinary variable as value:
 /// the system variables keep their platform values.
+/// C08 with datamodel="null": executable content that needs no data model (<raise>, <send> with literal
+/// attributes, <if>/<elseif>/<else> over In()) runs in document order in every host position.
+/// Observation: the internal events the session dequeues (no script engine, so no mark()).
+fn scenario_null_content(ctx: &Ctx, out: &mut WorkerOut, index: usize) {
+    // (body, expected internal events when hosted in: onentry of a, onexit of a, transition a -> b)
+    let bodies: Vec<(&str, [Vec<&str>; 3])> = vec![
+        (r#"<raise event="r1"/><raise event="r2"/>"#, [vec!["r1", "r2"], vec!["r1", "r2"], vec!["r1", "r2"]]),
+        (r##"<send event="r1" target="#_internal"/><raise event="r2"/>"##, [vec!["r1", "r2"], vec!["r1", "r2"], vec!["r1", "r2"]]),
+        (r#"<if cond="In('a')"><raise event="r1"/><else/><raise event="r2"/></if><raise event="r9"/>"#, [vec!["r1", "r9"], vec!["r1", "r9"], vec!["r2", "r9"]]),
+        (
+            r#"<if cond="In('b')"><raise event="r1"/><elseif cond="In('a')"/><raise event="r2"/><raise event="r4"/><else/><raise event="r3"/></if>"#,
+            [vec!["r2", "r4"], vec!["r2", "r4"], vec!["r3"]],
+        ),
+        (r#"<if cond="In('a')"><if cond="In('b')"><raise event="r1"/><else/><raise event="r2"/></if></if><raise event="r9"/>"#, [vec!["r2", "r9"], vec!["r2", "r9"], vec!["r9"]]),
+    ];
+    for (bi, (body, exp)) in bodies.iter().enumerate() {
+        for host in 0..3usize {
+            let (onentry, onexit, trans) = match host {
+                0 => (format!("<onentry>{}</onentry>", body), String::new(), String::new()),
+                1 => (String::new(), format!("<onexit>{}</onexit>", body), String::new()),
+                _ => (String::new(), String::new(), body.to_string()),
+            };
+            let xml = format!(
+                r#"<scxml xmlns="http://www.w3.org/2005/07/scxml" version="1.0" datamodel="null" initial="a"><state id="a">{onentry}{onexit}<transition event="go" target="b">{trans}</transition></state><state id="b"/></scxml>"#,
+                onentry = onentry,
+                onexit = onexit,
+                trans = trans
+            );
+            let replay = json!({"engine":"e1","index": index, "xml": xml, "history": ["go"]});
+            let mut run = match Run::start(&xml, std::time::Duration::from_secs(20)) {
+                Ok(r) => r,
+                Err(e) => {
+                    out.violation(ctx, "content-not-executed", "null-content:rejected", &format!("{:?}", e), replay);
+                    continue;
+                }
+            };
+            out.add("runs", 1);
+            let mut ok = run.wait_idle(1) == Wait::Idle;
+            if ok {
+                run.send_name("go");
+                ok = run.wait_idle(2) == Wait::Idle;
+                out.add("edges", 2);
+            }
+            if !ok {
+                out.violation(ctx, "session-stops-responding", "null-content:no-idle", &format!("{:?}", take_panics()), replay);
+                run.finish();
+                continue;
+            }
+            let got: Vec<String> = run
+                .log
+                .snapshot()
+                .iter()
+                .filter_map(|(_, r)| match r {
+                    Rec::IRecv(e) => Some(e.name.clone()),
+                    _ => None,
+                })
+                .collect();
+            let want: Vec<String> = exp[host].iter().map(|x| x.to_string()).collect();
+            out.add("ref_comparisons", 1);
+            if got != want {
+                out.violation(
+                    ctx,
+                    "content-not-executed",
+                    &format!("null-content:body{}:{}", bi, ["onentry", "onexit", "transition"][host]),
+                    &format!(
+                        "datamodel=\"null\": the block {} in {} must put {:?} on the internal queue, the session dequeued {:?}",
+                        body,
+                        ["<onentry> of the initial state", "<onexit> of the state left by event go", "the transition taken for event go"][host],
+                        want,
+                        got
+                    ),
+                    replay,
+                );
+            } else {
+                out.outcomes.insert(format!("null-content|{}|{}", bi, host));
+            }
+            run.finish();
+        }
+    }
+}
+
 fn scenario_sysvar_data(ctx: &Ctx, out: &mut WorkerOut, index: usize, dm: &str) {
     let ids = ["_sessionid", "_name", "_ioprocessors", "_event"];
     let exprs = ["'hacked'", "_sessionid", "_name", "_event.name", "_event", "v", "1"];
@@ -2082,6 +2164,7 @@ fn run_scenario(ctx: &Ctx, out: &mut WorkerOut, index: usize, name: &str, _label
         return;
     }
     match name {
+        "null-content" => scenario_null_content(ctx, out, index),
         "foreach-sources" => scenario_foreach_sources(ctx, out, index, "rfsm-expression"),
         "foreach-sources@ecmascript" => scenario_foreach_sources(ctx, out, index, "ecmascript"),
         "event-fields" => scenario_event_fields(ctx, out, index, "rfsm-expression"),
